@@ -84,6 +84,31 @@ for a, b in itertools.product(names, repeat=2):
                     fail(dict(inp, host=h), {'differing keys': ks}, 'identical to the single-target JSON', 'leak-json')
         finally:
             os.unlink(path)
+# forced interleaving: target A (small RSA key: its scan edits its rating table) is held at its first group-exchange probe until target B's
+# whole scan has finished on the other worker thread; A's report must still be its single-target report
+def slow_a(delay):
+    srv = F.Server(['curve25519-sha256', 'diffie-hellman-group-exchange-sha256'], ['rsa-sha2-512', 'ssh-rsa', 'ssh-ed25519'], ['aes128-ctr'], ['hmac-sha2-256'],
+                   hostkeys={'rsa-sha2-512': F.rsa_blob(1024), 'ssh-rsa': F.rsa_blob(1024), 'ssh-ed25519': F.ed25519_blob()}, moduli=[1024, 2048], select='strict')
+    if delay:
+        srv.delays = {3: delay}
+    return srv
+def quick_b():
+    return F.Server(['curve25519-sha256'], ['ssh-ed25519'], ['aes128-ctr'], ['hmac-sha2-256'], hostkeys={'ssh-ed25519': F.ed25519_blob()})
+st, out = F.run_main(['-n', '--skip-rate-test', 'slow.test'], F.FakeNet({'slow.test': slow_a(0)}))
+ref_a = [l for l in out.split('\n') if l.strip()]
+for order in (['slow.test', 'quick.test'], ['quick.test', 'slow.test']):
+    cases += 1
+    path = targets_file(order)
+    try:
+        net = F.FakeNet({'slow.test': slow_a(0.7), 'quick.test': quick_b()})
+        st, out = F.run_main(['-n', '--skip-rate-test', '-T', path, '--threads', '2'], net)
+    finally:
+        os.unlink(path)
+    hit = [blk for blk in split_blocks(out) if '(gen) target: slow.test' in blk.split('\n')]
+    got = norm_block(hit[0], 'slow.test') if len(hit) == 1 else None
+    if got != ref_a:
+        diff = ([l for l in got if l not in ref_a][:3] + ['MISSING: ' + l for l in ref_a if l not in got][:3]) if got else 'no block'
+        fail({'targets': order, 'threads': 2, 'forced interleaving': 'slow target held until the quick one has finished'}, diff, 'identical to the single-target report', 'leak-interleaved')
 # policy verdicts: a failing target must not make a later compliant target fail (error accumulation)
 pol = 'Hardened OpenSSH Server v9.9 (version 1)'
 from ssh_audit.builtin_policies import BUILTIN_POLICIES
@@ -164,5 +189,47 @@ for bad in bad_kinds:
                         for h, k in zip(hosts, kinds):
                             if k in ARCH and not any(('(gen) target: %%s' %% h) in b.split('\n') for b in blocks):
                                 fail(dict(inp, host=h), 'no report for the healthy target', 'one result block per target', 'lost-report')
+# the run's status is the highest-ranked target status, whatever the order of the targets
+mix = ['clean', 'cbc-etm', 'legacy-unknown', 'refused']
+for r in (2, 3):
+    for kinds in itertools.permutations(mix, r):
+        cases += 1
+        hosts = ['m%%d-%%s.test' %% (i, k) for i, k in enumerate(kinds)]
+        path = targets_file(hosts)
+        try:
+            net = F.FakeNet({h: mk(k) for h, k in zip(hosts, kinds)})
+            st, out = F.run_main(['-n', '--skip-rate-test', '-T', path, '--threads', '1'], net)
+        finally:
+            os.unlink(path)
+        want = max((alone[k] for k in kinds), key=rank)
+        if st != want:
+            fail({'targets': list(kinds), 'threads': 1}, {'exit status': st}, {'highest-ranked status among the targets': want, 'alone': [alone[k] for k in kinds]}, 'status-fold')
+# a target listed twice (same line twice; host and host:22) is scanned and reported once per line
+for lines in (['d.test', 'd.test'], ['d.test', 'd.test:22'], ['d.test', 'e.test', 'd.test']):
+    for js in (False, True):
+        for threads in (1, 2):
+            cases += 1
+            path = targets_file(lines)
+            try:
+                # (a reactive server: every connection gets the full handshake, so a second scan of the same host is served like the first)
+                def srv(name):
+                    a_ = ARCH[name]
+                    return F.Server(a_['kex'], a_['key'], a_['enc'], a_['mac'], hostkeys={'ssh-ed25519': F.ed25519_blob(), 'rsa-sha2-512': F.rsa_blob(3072)})
+                net = F.FakeNet({'d.test': srv('clean'), 'e.test': srv('cbc-etm')})
+                st, out = F.run_main(['-n', '--skip-rate-test', '-T', path, '--threads', str(threads)] + (['-j'] if js else []), net)
+            finally:
+                os.unlink(path)
+            inp = {'targets': lines, 'threads': threads, 'json': js}
+            if js:
+                try:
+                    arr = json.loads(out)
+                    if not isinstance(arr, list) or len(arr) != len(lines):
+                        fail(inp, {'elements': len(arr) if isinstance(arr, list) else None}, len(lines), 'duplicate-target-json')
+                except Exception as e:
+                    fail(inp, out[-120:], 'one JSON array with %%d elements' %% len(lines), 'duplicate-target-json')
+            else:
+                blocks = [b for b in split_blocks(out) if b.strip()]
+                if len(blocks) != len(lines) or out.rstrip().endswith('-' * 80):
+                    fail(inp, {'result blocks': len(blocks), 'tail': out[-100:]}, len(lines), 'duplicate-target-blocks')
 print(json.dumps({'cases': cases, 'failures': failures}))
 '''
